@@ -21,6 +21,8 @@ pub const SWEEP_BEGIN: u32 = 10;
 pub const SWEEP_BETWEEN: u32 = 11;
 /// Sweeper: after a complete pass
 pub const SWEEP_END: u32 = 12;
+/// Sweeper: holding a shard's write lock, before the first deletion (arg = db * 16 + shard)
+pub const SWEEP_LOCKED: u32 = 13;
 /// RDB writer: before `storage.get` of a key
 pub const RDB_KEY_GET: u32 = 20;
 /// RDB writer: between `get` and `ttl` of a key
